@@ -111,3 +111,13 @@ package autonatv2
 //@ ensures called(Accept, 0) && ret(Accept, 0, 0) ==> called(CompleteRequest, 0) && arg(CompleteRequest, 0, 1) == s.Conn().RemotePeer()
 //@ ensures ncalls(dialBack, 0) <= 1
 //@ noframe
+
+//@ func (as *server) dialBack
+//@ prop C16
+//@ callsite AddAddr#0 requires arg1 == p && arg2 == addr
+//@ callsite Connect#0 requires arg1 == ret(WithForceDirectDial, 0, 0) && called(AddAddr, 0)
+//@ callsite NewStream#0 requires arg1 == ret(WithForceDirectDial, 0, 0) && arg2 == p
+//@ ensures ncalls(AddAddr, 0) == 1
+//@ ensures called(ClosePeer, 0) && arg(ClosePeer, 0, 1) == p && called(ClearAddrs, 0) && arg(ClearAddrs, 0, 1) == p &&
+//@         called(RemovePeer, 0) && arg(RemovePeer, 0, 1) == p
+//@ noframe
